@@ -6,10 +6,348 @@ FeatureContainer and on the extracted Coq machine [run_ops cfg_fixed] (mode 0); 
 answer.  The specification the theorems state (brute force over everything added so far) is evaluated on the
 implementation's answers as well: through the model (mode 2, [spec_run]) in correspondence() and through a direct
 Python transcription in search() (no model needed there)."""
-import os, json, itertools, collections
-import fw
+import os, json, itertools, collections, ast, hashlib
+import fw, py2coq
+from py2coq import Untranslatable
 
 ERR = {'TypeError': 1, 'OverflowError': 2}
+
+# ============================================================================= T: translator tie
+# The kernel the window lemmas hinge on is regenerated from the current source into coq/Gen/GenFeatures.v on every run;
+# Model/C16.v is written in terms of these definitions and Proofs/C16_a.v ("shape lemmas") connects them to the
+# reference kernel the large proofs are about.  Anything not of the expected shape raises Untranslatable (fail closed).
+SRC = 'singlecellmultiomics/features/features.py'
+CLS = 'FeatureContainer'
+E_STARTS = 'self.startCoordinates[chromosome]'
+E_ENDS = 'self.endCoordinates[chromosome]'
+E_N = 'len(self.features[chromosome])'
+E_FEAT_I = 'self.features[chromosome][i]'
+
+
+def _sha(t):
+    return hashlib.sha256(t.encode()).hexdigest()
+
+
+class _Gen:
+    def __init__(self, repo):
+        self.path = os.path.join(repo, SRC)
+        self.src = open(self.path).read()
+        self.tree = ast.parse(self.src)
+        self.chunks, self.meta = [], []
+
+    def fn(self, name):
+        f = py2coq.find_function(self.tree, CLS + '.' + name)
+        if not isinstance(f, ast.FunctionDef):
+            raise Untranslatable('%s is not a function' % name)
+        return f
+
+    def emit(self, node, coqname, params, body, note=''):
+        seg = ast.get_source_segment(self.src, node) or ast.unparse(node)
+        self.chunks.append('(* source: %s line %d-%d sha256 %s %s\n   %s *)\nDefinition %s %s :=\n  %s.' % (
+            SRC, node.lineno, node.end_lineno, _sha(seg), note, ' '.join(seg.split()).replace('*)', '* )')[:300],
+            coqname, params, body))
+        self.meta.append({'source': SRC, 'lines': [node.lineno, node.end_lineno], 'sha256': _sha(seg), 'coq': coqname})
+
+    # ---- small recognisers
+    @staticmethod
+    def body_wo_doc(f):
+        b = list(f.body)
+        if b and isinstance(b[0], ast.Expr) and isinstance(b[0].value, ast.Constant) and isinstance(b[0].value.value, str):
+            b = b[1:]
+        return b
+
+    @staticmethod
+    def is_autosort(st):
+        return (isinstance(st, ast.If) and ast.unparse(st.test) == 'not self.sorted' and not st.orelse
+                and len(st.body) == 1 and ast.unparse(st.body[0]) == 'self.sort()')
+
+    def autosort_first(self, fname, coqname):
+        """true iff the first statement re-indexes an unsorted container; a re-index anywhere else is not recognised as one"""
+        f = self.fn(fname)
+        b = self.body_wo_doc(f)
+        first = bool(b) and self.is_autosort(b[0])
+        self.emit(b[0] if b else f, coqname, ': bool', 'true' if first else 'false',
+                  note='(first statement of %s is `if not self.sorted: self.sort()`: %s)' % (fname, first))
+
+    def clears(self, fname, coqname, before=None):
+        """true iff a top level statement of fname (before the first statement of kind `before`) drops the lru caches"""
+        helper = self.fn('_clear_lookup_cache') if any(
+            isinstance(c, ast.FunctionDef) and c.name == '_clear_lookup_cache'
+            for c in ast.walk(self.tree)) else None
+        helper_ok = helper is not None and any(ast.unparse(st) == 'self.findFeaturesAt.cache_clear()' for st in helper.body)
+        f = self.fn(fname)
+
+        def is_clear(st):
+            u = ast.unparse(st)
+            return u == 'self.findFeaturesAt.cache_clear()' or (u == 'self._clear_lookup_cache()' and helper_ok)
+        top = []
+        for st in f.body:
+            if before is not None and isinstance(st, before):
+                break
+            top.append(st)
+        hit = [st for st in top if is_clear(st)]
+        nested = [n for n in ast.walk(f) if isinstance(n, ast.Expr) and is_clear(n) and n not in top]
+        if nested:
+            raise Untranslatable('%s: cache_clear under a condition / inside a loop (line %d) is outside the recognised shape'
+                                 % (fname, nested[0].lineno))
+        self.emit(hit[0] if hit else f.body[0], coqname, ': bool', 'true' if hit else 'false',
+                  note='(%s clears the lru_cache of findFeaturesAt unconditionally: %s)' % (fname, bool(hit)))
+
+    def ss_call(self, node, array, what):
+        """np.searchsorted(<array>, key, side) -> (key node, side 0/1)"""
+        if not (isinstance(node, ast.Call) and ast.unparse(node.func) == 'np.searchsorted'):
+            raise Untranslatable('%s: expected np.searchsorted(...), got %s' % (what, ast.unparse(node)[:80]))
+        args, kw = list(node.args), {k.arg: k.value for k in node.keywords}
+        if len(args) not in (2, 3) or set(kw) - {'side'} or (len(args) == 3 and 'side' in kw):
+            raise Untranslatable('%s: argument form of np.searchsorted outside subset' % what)
+        if ast.unparse(args[0]) != array:
+            raise Untranslatable('%s: searched array is %s, expected %s' % (what, ast.unparse(args[0]), array))
+        side = args[2] if len(args) == 3 else kw.get('side')
+        if side is None:
+            sv = 'left'
+        elif isinstance(side, ast.Constant) and side.value in ('left', 'right'):
+            sv = side.value
+        else:
+            raise Untranslatable('%s: side argument %s' % (what, ast.unparse(side)))
+        return args[1], 0 if sv == 'left' else 1
+
+    def only_ss(self, node, what):
+        calls = [n for n in ast.walk(node) if isinstance(n, ast.Call) and ast.unparse(n.func) == 'np.searchsorted']
+        if len(calls) != 1:
+            raise Untranslatable('%s: expected exactly one np.searchsorted, found %d' % (what, len(calls)))
+        return calls[0]
+
+    def z(self, node, env):
+        free = {n.id for n in ast.walk(node) if isinstance(n, ast.Name)} - {'max', 'min', 'int', 'len', 'self', 'np'}
+        tr = py2coq.ExprTranslator(env=env)
+        out = tr.z(node)
+        return out
+
+    def bexp(self, node, env):
+        tr = py2coq.ExprTranslator(env=env)
+        return tr.b(node)
+
+    @staticmethod
+    def assigns(stmts, name):
+        return [st for st in stmts if isinstance(st, ast.Assign) and len(st.targets) == 1
+                and isinstance(st.targets[0], ast.Name) and st.targets[0].id == name]
+
+    def one_assign(self, stmts, name, what):
+        a = self.assigns(stmts, name)
+        if len(a) != 1:
+            raise Untranslatable('%s: expected exactly one assignment to %s, found %d' % (what, name, len(a)))
+        return a[0]
+
+    @staticmethod
+    def skip_debug(stmts):
+        return [st for st in stmts if not (isinstance(st, ast.If) and ast.unparse(st.test) == 'self.debug')]
+
+    def comp(self, node, what, lo_hi=('startRange', 'endRange')):
+        """[self.features[chromosome][i] for i in range(lo, hi) if COND]  (list comprehension or generator) -> (iter args, COND)"""
+        if not isinstance(node, (ast.ListComp, ast.GeneratorExp)) or len(node.generators) != 1:
+            raise Untranslatable('%s: not a single comprehension' % what)
+        g = node.generators[0]
+        if ast.unparse(node.elt) != E_FEAT_I or ast.unparse(g.target) != 'i' or len(g.ifs) != 1 or g.is_async:
+            raise Untranslatable('%s: comprehension form outside subset: %s' % (what, ast.unparse(node)[:120]))
+        it = g.iter
+        if not (isinstance(it, ast.Call) and ast.unparse(it.func) == 'range' and len(it.args) == 2 and not it.keywords):
+            raise Untranslatable('%s: not over range(a, b)' % what)
+        if lo_hi is not None and [ast.unparse(a) for a in it.args] != list(lo_hi):
+            raise Untranslatable('%s: range bounds %s' % (what, ast.unparse(it)))
+        return it.args, g.ifs[0]
+
+    # ---- the functions
+    def find_at(self):
+        f = self.fn('_findFeaturesAt')
+        self.autosort_first('_findFeaturesAt', 'g_autosort_at')
+        w = self.fn('findFeaturesAt')
+        decos = [ast.unparse(d) for d in w.decorator_list]
+        if not any(d.startswith('functools.lru_cache') for d in decos) or len(w.body) != 1 or ast.unparse(w.body[0]) != \
+                'return self._findFeaturesAt(chromosome, lookupCoordinate, strand=strand, optim=optim)':
+            raise Untranslatable('findFeaturesAt is not the lru_cache wrapper of _findFeaturesAt')
+        body = self.body_wo_doc(f)
+        XE = {'lookupCoordinate': 'x'}
+        sa = self.one_assign(body, 's', '_findFeaturesAt')
+        key, side = self.ss_call(sa.value, E_STARTS, '_findFeaturesAt: s')
+        self.emit(sa, 'g_s_side', ': Z', str(side), note="(side: 0 'left', 1 'right')")
+        self.emit(key, 'g_s_key', '(x : Z) : Z', self.z(key, XE))
+        chain = [st for st in body if isinstance(st, ast.If) and ast.unparse(st.test) == "optim == 'bdbnb'"]
+        if len(chain) != 1 or body.index(chain[0]) < body.index(sa):
+            raise Untranslatable("_findFeaturesAt: expected one `if optim == 'bdbnb'` after the assignment of s")
+        br = chain[0]
+        KEEP = {E_FEAT_I + '[1]': 'e', 'lookupCoordinate': 'x', 'strand is None': 'snone', E_FEAT_I + '[3] == strand': 'seq'}
+        # bdbnb
+        b = self.skip_debug(br.body)
+        sr = self.one_assign(b, 'startRange', 'bdbnb')
+        if ast.unparse(sr.value) != 'self.fastIndex[chromosome][s - 1]':
+            raise Untranslatable('bdbnb: startRange = %s' % ast.unparse(sr.value))
+        er = self.one_assign(b, 'endRange', 'bdbnb')
+        self.emit(er, 'g_fast_end', '(s n : Z) : Z', self.z(er.value, {E_N: 'n'}))
+        rets = [st for st in b if isinstance(st, ast.Return)]
+        if len(rets) != 1 or len(b) != 3:
+            raise Untranslatable('bdbnb: expected startRange, endRange, return')
+        _, cond = self.comp(rets[0].value, 'bdbnb')
+        self.emit(cond, 'g_fast_keep', '(e x : Z) (snone seq : bool) : bool', self.bexp(cond, KEEP))
+        # nb
+        if len(br.orelse) != 1 or not isinstance(br.orelse[0], ast.If) or ast.unparse(br.orelse[0].test) != "optim == 'nb'":
+            raise Untranslatable("_findFeaturesAt: expected `elif optim == 'nb'`")
+        nb = br.orelse[0]
+        b = self.skip_debug(nb.body)
+        ml = self.one_assign(b, 'ml', 'nb')
+        sr = self.one_assign(b, 'startRange', 'nb')
+        key, side = self.ss_call(sr.value, E_STARTS, 'nb: startRange')
+        if ast.unparse(key) != 'ml' or b.index(ml) > b.index(sr):
+            raise Untranslatable('nb: search key %s' % ast.unparse(key))
+        self.emit(sr, 'g_nb_side', ': Z', str(side))
+        self.emit(ml, 'g_nb_key', '(x maxlen : Z) : Z', self.z(ml.value, {'lookupCoordinate': 'x', 'self.maxFeatureSizes[chromosome]': 'maxlen'}))
+        er = self.one_assign(b, 'endRange', 'nb')
+        self.emit(er, 'g_nb_end', '(s n : Z) : Z', self.z(er.value, {E_N: 'n'}))
+        ca = self.one_assign(b, 'candidates', 'nb')
+        if len(b) != 4 or not (isinstance(ca.value, ast.Call) and ast.unparse(ca.value.func) == 'set' and len(ca.value.args) == 1):
+            raise Untranslatable('nb: expected ml, startRange, endRange, candidates = set(...)')
+        _, cond = self.comp(ca.value.args[0], 'nb')
+        self.emit(cond, 'g_nb_keep', '(e x : Z) : bool', self.bexp(cond, {E_FEAT_I + '[1]': 'e', 'lookupCoordinate': 'x'}))
+        # optim
+        if len(nb.orelse) != 1 or not isinstance(nb.orelse[0], ast.If) or ast.unparse(nb.orelse[0].test) != "optim == 'optim'":
+            raise Untranslatable("_findFeaturesAt: expected `elif optim == 'optim'`")
+        op = nb.orelse[0]
+        b = self.skip_debug(op.body)
+        sa2 = self.one_assign(b, 's', 'optim')
+        key, side = self.ss_call(sa2.value, E_STARTS, 'optim: s')
+        self.emit(sa2, 'g_optim_side', ': Z', str(side))
+        self.emit(key, 'g_optim_key', '(x : Z) : Z', self.z(key, XE))
+        ca = self.one_assign(b, 'candidates', 'optim')
+        if len(b) != 2 or not (isinstance(ca.value, ast.Call) and ast.unparse(ca.value.func) == 'set' and len(ca.value.args) == 1):
+            raise Untranslatable('optim: expected s, candidates = set(...)')
+        rng, cond = self.comp(ca.value.args[0], 'optim', lo_hi=None)
+        if ast.unparse(rng[0]) != '0':
+            raise Untranslatable('optim: range starts at %s' % ast.unparse(rng[0]))
+        self.emit(rng[1], 'g_optim_end', '(s n : Z) : Z', self.z(rng[1], {E_N: 'n'}))
+        self.emit(cond, 'g_optim_keep', '(e x : Z) : bool', self.bexp(cond, {E_FEAT_I + '[1]': 'e', 'lookupCoordinate': 'x'}))
+        # common tail:  return [candidate for candidate in candidates if (strand is None or candidate[3] == strand)]
+        tail = [st for st in body[body.index(br) + 1:] if isinstance(st, ast.Return)]
+        if len(tail) != 1:
+            raise Untranslatable('_findFeaturesAt: expected one return after the optim chain')
+        lc = tail[0].value
+        if not (isinstance(lc, ast.ListComp) and len(lc.generators) == 1 and ast.unparse(lc.elt) == 'candidate'
+                and ast.unparse(lc.generators[0].target) == 'candidate' and ast.unparse(lc.generators[0].iter) == 'candidates'
+                and len(lc.generators[0].ifs) == 1):
+            raise Untranslatable('_findFeaturesAt: final strand filter has another shape')
+        cond = lc.generators[0].ifs[0]
+        self.emit(cond, 'g_strand_keep', '(snone seq : bool) : bool', self.bexp(cond, {'strand is None': 'snone', 'candidate[3] == strand': 'seq'}))
+
+    def between(self):
+        f = self.fn('findFeaturesBetween')
+        self.autosort_first('findFeaturesBetween', 'g_autosort_between')
+        body = self.body_wo_doc(f)
+        AB = {'sampleStart': 'a', 'sampleEnd': 'b'}
+        si = self.assigns(body, 'startIndex')
+        if len(si) != 2:
+            raise Untranslatable('findFeaturesBetween: expected two assignments to startIndex, found %d' % len(si))
+        c1 = self.only_ss(si[0].value, 'findFeaturesBetween: first startIndex')
+        key, side = self.ss_call(c1, E_STARTS, 'findFeaturesBetween: starts')
+        self.emit(c1, 'g_btw_s_side', ': Z', str(side))
+        self.emit(key, 'g_btw_s_key', '(a b : Z) : Z', self.z(key, AB))
+        self.emit(si[0], 'g_btw_i0', '(ssa : Z) : Z', self.z(si[0].value, {ast.unparse(c1): 'ssa'}))
+        c2 = self.only_ss(si[1].value, 'findFeaturesBetween: second startIndex')
+        key, side = self.ss_call(c2, E_ENDS, 'findFeaturesBetween: ends')
+        self.emit(c2, 'g_btw_e_side', ': Z', str(side))
+        self.emit(key, 'g_btw_e_key', '(a b : Z) : Z', self.z(key, AB))
+        self.emit(si[1], 'g_btw_start', '(i0 sse : Z) : Z', self.z(si[1].value, {ast.unparse(c2): 'sse', 'startIndex': 'i0'}))
+        loops = [st for st in body if isinstance(st, ast.While)]
+        if len(loops) != 1 or ast.unparse(loops[0].test) != 'x and startIndex < %s' % E_N or loops[0].orelse:
+            raise Untranslatable('findFeaturesBetween: scan loop has another shape')
+        lb = loops[0].body
+        if not (len(lb) == 4 and ast.unparse(lb[0]) == 'd = self.features[chromosome][startIndex]'
+                and ast.unparse(lb[1]) in ('hitStart, hitEnd, name, hitStrand, data = d', '(hitStart, hitEnd, name, hitStrand, data) = d')
+                and isinstance(lb[2], ast.If) and ast.unparse(lb[3]) == 'startIndex += 1'):
+            raise Untranslatable('findFeaturesBetween: loop body has another shape')
+        stop = lb[2]
+        if not (len(stop.body) == 1 and ast.unparse(stop.body[0]) == 'x = False' and len(stop.orelse) == 1
+                and isinstance(stop.orelse[0], ast.If)):
+            raise Untranslatable('findFeaturesBetween: stop test has another shape')
+        ov = stop.orelse[0]
+        if not (not ov.orelse and len(ov.body) == 1 and isinstance(ov.body[0], ast.If) and not ov.body[0].orelse
+                and len(ov.body[0].body) == 1 and ast.unparse(ov.body[0].body[0]) == 'hits.add(d)'):
+            raise Untranslatable('findFeaturesBetween: overlap / strand tests have another shape')
+        H = {'sampleStart': 'a', 'sampleEnd': 'b', 'hitStart': 'hs', 'hitEnd': 'he'}
+        self.emit(stop.test, 'g_btw_stop', '(hs b : Z) : bool', self.bexp(stop.test, H))
+        self.emit(ov.test, 'g_btw_overlap', '(a b hs he : Z) : bool', self.bexp(ov.test, H))
+        st = ov.body[0].test
+        self.emit(st, 'g_btw_strand', '(snone seq : bool) : bool', self.bexp(st, {'strand is None': 'snone', 'strand == hitStrand': 'seq'}))
+        tail = [ast.unparse(x) for x in body[body.index(loops[0]) + 1:]]
+        if tail != ['hits.update(set(self.findFeaturesAt(chromosome, sampleStart, strand)))',
+                    'hits.update(set(self.findFeaturesAt(chromosome, sampleEnd, strand)))', 'return list(hits)']:
+            raise Untranslatable('findFeaturesBetween: the two boundary lookups / the return have another shape: %r' % (tail,))
+        pre = [ast.unparse(x) for x in body[body.index(si[1]) + 1:body.index(loops[0])]]
+        if pre != ['hits = set()', 'x = True']:
+            raise Untranslatable('findFeaturesBetween: statements before the loop: %r' % (pre,))
+
+    def pysam_align(self):
+        f = self.fn('findFeaturesAtPysamAlign')
+        self.autosort_first('findFeaturesAtPysamAlign', 'g_autosort_blocks')
+        calls = [n for n in ast.walk(f) if isinstance(n, ast.Call) and ast.unparse(n.func) == 'self.findFeaturesBetween']
+        if len(calls) != 1:
+            raise Untranslatable('findFeaturesAtPysamAlign: expected one call of findFeaturesBetween')
+        c = calls[0]
+        if not (len(c.args) == 3 and ast.unparse(c.args[0]) == 'pysamRead.reference_name'
+                and [(k.arg, ast.unparse(k.value)) for k in c.keywords] == [('strand', 'strand')]):
+            raise Untranslatable('findFeaturesAtPysamAlign: arguments of findFeaturesBetween')
+        gens = [n for n in ast.walk(f) if isinstance(n, ast.comprehension) and ast.unparse(n.iter) == 'pysamRead.get_blocks()']
+        if len(gens) != 1 or ast.unparse(gens[0].target) != '(lookupCoordinateStart, lookupCoordinateEnd)' or gens[0].ifs:
+            raise Untranslatable('findFeaturesAtPysamAlign: loop over get_blocks() has another shape')
+        E = {'lookupCoordinateStart': 'bs', 'lookupCoordinateEnd': 'be'}
+        self.emit(c.args[1], 'g_block_start', '(bs be : Z) : Z', self.z(c.args[1], E))
+        self.emit(c.args[2], 'g_block_end', '(bs be : Z) : Z', self.z(c.args[2], E))
+
+    def sort_and_add(self):
+        self.clears('addFeature', 'g_clear_add')
+        self.clears('sort', 'g_clear_sort', before=ast.For)
+        f = self.fn('sort')
+        loops = [st for st in f.body if isinstance(st, ast.For)]
+        if len(loops) != 1 or ast.unparse(loops[0].target) != 'chromosome' or ast.unparse(loops[0].iter) != 'self.features.keys()':
+            raise Untranslatable('sort: loop over the contigs has another shape')
+        lb = loops[0].body
+        fi = [st for st in lb if isinstance(st, ast.Assign) and ast.unparse(st.targets[0]) == 'self.fastIndex[chromosome]']
+        if len(fi) != 1:
+            raise Untranslatable('sort: expected one assignment to self.fastIndex[chromosome]')
+        key, side = self.ss_call(fi[0].value, E_STARTS, 'sort: fastIndex')
+        if ast.unparse(key) != 'lowestStarts':
+            raise Untranslatable('sort: fastIndex search key %s' % ast.unparse(key))
+        self.emit(fi[0], 'g_fastidx_side', ': Z', str(side))
+        ml = self.one_assign(lb, 'maxLengthFeature', 'sort')
+        v = ml.value
+        if not (isinstance(v, ast.Call) and ast.unparse(v.func) == 'np.max' and len(v.args) == 1 and not v.keywords
+                and isinstance(v.args[0], ast.ListComp) and len(v.args[0].generators) == 1
+                and ast.unparse(v.args[0].generators[0].target) == 'tup' and not v.args[0].generators[0].ifs
+                and ast.unparse(v.args[0].generators[0].iter) == 'self.features[chromosome]'):
+            raise Untranslatable('sort: maxLengthFeature = %s' % ast.unparse(v)[:120])
+        self.emit(v.args[0].elt, 'g_len', '(s e : Z) : Z', self.z(v.args[0].elt, {'tup[1]': 'e', 'tup[0]': 's'}))
+        if not any(ast.unparse(st) == 'self.maxFeatureSizes[chromosome] = maxLengthFeature' for st in lb):
+            raise Untranslatable('sort: maxFeatureSizes[chromosome] is not maxLengthFeature')
+        ls = self.one_assign(lb, 'lowestStarts', 'sort')
+        want = ("np.fromiter((min((f[0] for f in self.findFeaturesAt(chromosome, feature[0], optim='nb'))) "
+                "for feature in self.features[chromosome]), dtype=np.int64)")
+        if ast.unparse(ls.value) != want:
+            raise Untranslatable('sort: lowestStarts = %s' % ast.unparse(ls.value)[:200])
+        order = [lb.index(x) for x in (ml, ls, fi[0])]
+        if order != sorted(order):
+            raise Untranslatable('sort: order of maxLengthFeature / lowestStarts / fastIndex')
+        need = ['self.features[chromosome].sort()',
+                'self.startCoordinates[chromosome] = np.fromiter((tup[0] for tup in self.features[chromosome]), dtype=np.int64)']
+        have = [ast.unparse(st) for st in lb]
+        if have[:2] != need:
+            raise Untranslatable('sort: the loop does not start with features.sort() and startCoordinates = starts')
+
+
+def regen_features():
+    g = _Gen(fw.REPO)
+    g.find_at()
+    g.between()
+    g.pysam_align()
+    g.sort_and_add()
+    py2coq.write_gen(os.path.join(fw.COQ, 'Gen', 'GenFeatures.v'), '', g.chunks)
+    return g.meta
 
 
 # ----------------------------------------------------------------------------- helpers shared by K and search
@@ -190,6 +528,11 @@ class Prop(fw.PropBase):
     ID = 'C16'
     PROPS = 'Props/C16.v'
     TRUSTED = [
+        'T: tools/c16.py AST recognisers (regen_features): they locate the np.searchsorted calls (side + key), comprehension '
+        'conditions, window ends, the scan loop tests, the findFeaturesBetween arguments of the read annotation, the first-statement '
+        're-index and the top-level cache_clear calls by their position in _findFeaturesAt / findFeaturesBetween / '
+        'findFeaturesAtPysamAlign / sort / addFeature and refuse (Untranslatable) any other statement shape; expressions go '
+        'through py2coq.ExprTranslator. Control flow around these pieces (loop structure, set building, memo wrapper) stays hand modelled and is tied by K',
         'modelled not verified: numpy (np.searchsorted on an ascending array = index of the first element >= v; np.fromiter / '
         'np.max / argsort), Python list.sort on tuples (= the unique ascending arrangement; raises TypeError iff a None strand '
         'meets a str strand behind equal (start, end, name)), set()/list(set) (= duplicate removal, order ignored), '
@@ -211,6 +554,18 @@ class Prop(fw.PropBase):
         'no two features of one contig share (start, end, name) while exactly one of them has strand None (list.sort raises TypeError: modelled as Raise)',
         'range queries have sampleStart <= sampleEnd; every pysam block is non empty (start < end)',
     ]
+
+    def regen(self):
+        try:
+            return regen_features()
+        except BaseException:
+            # fail closed: never prove / run against definitions generated from another source
+            for ext in ('.v', '.vo', '.vos', '.vok', '.glob'):
+                try:
+                    os.remove(os.path.join(fw.COQ, 'Gen', 'GenFeatures' + ext))
+                except OSError:
+                    pass
+            raise
 
     # ------------------------------------------------------------------ generators
     def gen_feature(self, U, nstrand, pool):
